@@ -148,6 +148,20 @@ impl Cell {
             }
         }
 
+        // glyph fallback string is written character by character
+        // (see `TerminalWriter::put_cell`), so it must be measured the same way
+        if !ctx.has_glyphs() {
+            if let CellKind::Glyph(glyph) = &self.kind {
+                let mut pos = None;
+                for character in glyph.fallback_str().chars() {
+                    let character_pos = Cell::new_char(self.face, character)
+                        .layout(ctx, max_width, wraps, size, cursor);
+                    pos = pos.or(character_pos);
+                }
+                return pos;
+            }
+        }
+
         // skip empty cells
         let cell_size = self.size(ctx);
         if cell_size.height == 0 || cell_size.width == 0 {
